@@ -1,5 +1,5 @@
 """C20 - Configured evolvent density is honoured (DESIGN 5.C20)."""
-import json
+import json, re
 from pyvc.frontend import Repo
 from pyvc import verify, runner
 from contracts import evolvent as ce
@@ -10,6 +10,21 @@ PID = "C20"
 ALLOWED_DENSITY_WRITERS = {("iOpt/evolvent/evolvent.py", "Evolvent.__init__"), ("iOpt/solver_parametrs.py", "SolverParameters.__init__")}
 
 
+METHOD_FUNCS = ["Method.FirstIteration", "Method.CalculateIterationPoint", "Method.CalculateFunctionals", "OptimizationTask.Calculate"]
+_POINT = re.compile(r"imgv\(|vecval\(|inbox\(|floatVariables")
+
+
+def in_scope(item):
+    """of the method-layer functions only the clauses about WHERE a trial is made belong to C20"""
+    f = str(item.get("func", ""))
+    if not any(f.endswith(q) or q in f for q in METHOD_FUNCS):
+        return True
+    kind = str(item.get("kind", ""))
+    if not kind.startswith(("ensures", "requires[", "ghost-assert", "inv-", "raises")) or "#nonnull" in kind:
+        return True
+    return bool(_POINT.search(item.get("clause", "") or ""))
+
+
 def run(tier, seed):
     chk = runner.Check(PID, tier, seed)
     repo = Repo()
@@ -17,6 +32,14 @@ def run(tier, seed):
     reps = sc.constructor_reports(repo)
     # (2) the image of every x is the centre of a cell of the 2^m grid, m = evolvent.evolventDensity (C07 obligation 1)
     ec.run_parallel(chk, ("node", "getyonx", "p2d", "getimage", "init"), (), (), Ns=ec.NS, more_reports=reps)
+    # (2b) every trial point IS an image of this solver's evolvent: the point of every item created by the method is
+    #      imgv(evolvent, x) and the objective is evaluated exactly there (post-conditions of the real FirstIteration /
+    #      CalculateIterationPoint / CalculateFunctionals / OptimizationTask.Calculate; only these clauses are in C20's scope)
+    from . import method_common as mc
+    mreps = mc.build(METHOD_FUNCS)
+    verify.finish_reports(mreps)
+    for rep in mreps:
+        chk.add_report(rep)
     # (3) frame: nothing writes <obj>.evolventDensity after construction
     sites = sc.attribute_store_sites(repo, "evolventDensity")
     bad = [s for s in sites if (s[0], s[1]) not in ALLOWED_DENSITY_WRITERS]
@@ -39,7 +62,7 @@ def run(tier, seed):
             _c["r"] = sc.solver_oracle("c20", seed)
         return _c["r"]
 
-    return chk.finish(oracle=oracle)
+    return chk.finish(oracle=oracle, in_scope=in_scope)
 
 
 def replay(path):
